@@ -55,7 +55,7 @@ chk("C11", "E-prod x configurations", PROD + "; run in the std and no_std builds
     "x from structured families; both configurations must satisfy the oracle (hence agree).",
     "DESIGN.md 4/C11")
 chk("C12", "E-prod", PROD,
-    "26 bases x every exponent 0..=600 (every trailing-zero / set-bit pattern up to 10 bits), every exponent < 4096 for bases 0,+-1,+-2, through every exponent type (u8..u128, usize, BigUint; value and reference forms) and the inherent pow(u32), against a running product in refint; BigUint exponents at the u64/u128 edges with bases 0 and +-1.",
+    "48 bases x every exponent 0..=600 (every trailing-zero / set-bit pattern up to 10 bits), every exponent < 4096 for bases 0,+-1,+-2, through every exponent type (u8..u128, usize, BigUint; value and reference forms) and the inherent pow(u32), against a running product in refint; BigUint exponents at the u64/u128 edges with bases 0 and +-1.",
     "Fixed base set; exponents bounded by 600 (4096 for tiny bases).",
     "DESIGN.md 4/C12")
 chk("C13", "E-prod", PROD,
